@@ -24,6 +24,7 @@ fn glue(w: i32, st: i32, so: GlueOrder, sh: i32) -> ds::Horizontal {
 }
 fn pen(p: i32) -> ds::Horizontal { ds::Horizontal::Penalty(ds::Penalty(p)) }
 fn kern(w: i32) -> ds::Horizontal { ds::Horizontal::Kern(ds::Kern { width: Scaled(w * U), kind: ds::KernKind::Explicit }) }
+fn font_kern(w: i32) -> ds::Horizontal { ds::Horizontal::Kern(ds::Kern { width: Scaled(w * U), kind: ds::KernKind::Normal }) }
 
 // ---------------------------------------------------------------- the independent model
 /// TeX.2021.108
@@ -145,9 +146,9 @@ fn check(list: &[ds::Horizontal], widths: &[i32], tol: i32, params: &Params, sta
     }
     stats[0] += 1;
     let describe = || format!("{:?}", list.iter().map(|e| match e {
-        ds::Horizontal::HBox(h) => format!("box{}", h.width.0 / U), ds::Horizontal::Kern(k) => format!("kern{}", k.width.0 / U),
+        ds::Horizontal::HBox(h) => format!("box{}", h.width.0 / U), ds::Horizontal::Kern(k) => format!("{}{}", if k.kind == ds::KernKind::Explicit { "kern" } else { "fontkern" }, k.width.0 / U),
         ds::Horizontal::Penalty(p) => format!("pen{}", p.0),
-        ds::Horizontal::Glue(g) => format!("glue{}+{}{}-{}", g.value.width.0 / U, g.value.stretch.0 / U, if g.value.stretch_order == GlueOrder::Normal { "" } else { "fil" }, g.value.shrink.0 / U),
+        ds::Horizontal::Glue(g) => format!("glue{}+{}{}-{}", g.value.width.0 / U, g.value.stretch.0 / U, ["", "fil", "fill", "filll"][g.value.stretch_order as usize], g.value.shrink.0 / U),
         _ => "?".to_string() }).collect::<Vec<_>>()).replace('"', "");
     let fail = |observed: String, expected: String| {
         println!("WITNESS {{\"fn\": \"break_line_single_attempt\", \"unit_fns\": [\"break_line_single_attempt\", \"demerits\", \"badness\", \"num_nodes_for_next_class\"], \"list\": \"{}\", \"line_widths\": \"{:?}\", \"tolerance\": {}, \"observed\": \"{}\", \"expected\": \"{}\"}}", describe(), widths, tol, observed, expected);
@@ -191,6 +192,13 @@ fn optimal_breaks() {
         vec![pen(-10000)],
         vec![kern(1), glue(1, 1, GlueOrder::Normal, 1)],
         vec![],
+        // a font kern after a glue breakpoint is NOT discarded (TeX.2021.837: only explicit kerns are)
+        vec![glue(1, 1, GlueOrder::Normal, 1), font_kern(1)],
+        // penalties beyond -10000 force a break like -10000 (TeX.2021.831)
+        vec![pen(-20000)],
+        // every order of infinite stretch makes a short line perfect (TeX.2021.852)
+        vec![glue(1, 1, GlueOrder::Fill, 0)],
+        vec![glue(1, 1, GlueOrder::Filll, 0)],
     ];
     let boxes = [2, 3, 5];
     let mut stats = [0u64; 4];
@@ -200,8 +208,9 @@ fn optimal_breaks() {
         let nb = boxes.len().pow(n as u32);
         let ns = seps.len().pow(n as u32 - 1);
         for bi in 0..nb { for si in 0..ns {
-            // thin the 5-word space
-            if n == 5 && (bi * 7 + si) % 11 != 0 { continue; }
+            // thin the larger spaces (quick: 4 boxes 1 in 5; thorough: 5 boxes 1 in 37)
+            if !thorough && n == 4 && (bi * 7 + si) % 5 != 0 { continue; }
+            if n == 5 && (bi * 7 + si) % 37 != 0 { continue; }
             let mut list = vec![];
             let (mut b, mut s) = (bi, si);
             for k in 0..n {
